@@ -116,6 +116,74 @@ theorem speciesOrder_nodup (decl : List String) (rxns : List RxnDef) (ic : List 
     rw [List.foldl_cons]
     exact ih _ (addAll_nodup _ _ (addAll_nodup _ _ (addAll_nodup _ _ (addAll_nodup _ _ base))))
 
+theorem addAll_mono (idx ss : List String) (t : String) (h : t ∈ idx) : t ∈ addAll idx ss := by
+  unfold addAll
+  induction ss generalizing idx with
+  | nil => exact h
+  | cons s rest ih => exact ih _ (addSpecies_mem idx s t h)
+
+theorem addAll_mem (idx ss : List String) (s : String) (hs : s ∈ ss) (hne : s ≠ "") : s ∈ addAll idx ss := by
+  unfold addAll
+  induction ss generalizing idx with
+  | nil => cases hs
+  | cons a rest ih =>
+    rw [List.foldl_cons]
+    rcases List.mem_cons.mp hs with rfl | h
+    · exact addAll_mono _ rest _ (addSpecies_self idx _ hne)
+    · exact ih _ h
+
+theorem addAll_prefix (idx ss : List String) : idx <+: addAll idx ss := by
+  unfold addAll
+  induction ss generalizing idx with
+  | nil => exact List.prefix_refl _
+  | cons a rest ih =>
+    rw [List.foldl_cons]
+    refine List.IsPrefix.trans ?_ (ih _)
+    unfold addSpecies; split
+    · exact List.prefix_refl _
+    · exact List.prefix_append _ _
+
+private theorem rxnFold_prefix (rxns : List RxnDef) (idx0 : List String) :
+    idx0 <+: rxns.foldl (fun idx r =>
+      addAll (addAll (addAll (addAll idx r.reactants) r.products) r.dReactants) r.dProducts) idx0 := by
+  induction rxns generalizing idx0 with
+  | nil => exact List.prefix_refl _
+  | cons r rest ih =>
+    rw [List.foldl_cons]
+    exact ((((addAll_prefix idx0 r.reactants).trans (addAll_prefix _ r.products)).trans
+      (addAll_prefix _ r.dReactants)).trans (addAll_prefix _ r.dProducts)).trans (ih _)
+
+/-- **declared species keep their declared positions**: the index list starts with the declared species in declaration
+order (duplicates and empty names dropped); species that only appear in reactions or initial conditions come after. -/
+theorem speciesOrder_declared_first (decl : List String) (rxns : List RxnDef) (ic : List String) :
+    addAll [] decl <+: speciesOrder decl rxns ic := by
+  unfold speciesOrder
+  exact (rxnFold_prefix rxns _).trans (addAll_prefix _ ic)
+
+/-- **no species is left without a row**: every (non-empty) name that is declared, used by any reaction as reactant,
+product, delayed reactant or delayed product, or given an initial condition, is in the index list. -/
+theorem speciesOrder_complete (decl : List String) (rxns : List RxnDef) (ic : List String) (s : String) (hne : s ≠ "")
+    (h : s ∈ decl ∨ s ∈ ic ∨ ∃ r ∈ rxns, s ∈ r.reactants ∨ s ∈ r.products ∨ s ∈ r.dReactants ∨ s ∈ r.dProducts) :
+    s ∈ speciesOrder decl rxns ic := by
+  unfold speciesOrder
+  rcases h with h | h | ⟨r, hr, h⟩
+  · exact addAll_mono _ ic s ((rxnFold_prefix rxns _).subset (addAll_mem [] decl s h hne))
+  · exact addAll_mem _ ic s h hne
+  · apply addAll_mono _ ic s
+    generalize addAll [] decl = idx0
+    induction rxns generalizing idx0 with
+    | nil => cases hr
+    | cons r' rest ih =>
+      rw [List.foldl_cons]
+      rcases List.mem_cons.mp hr with rfl | hr'
+      · apply (rxnFold_prefix rest _).subset
+        rcases h with h | h | h | h
+        · exact addAll_mono _ _ s (addAll_mono _ _ s (addAll_mono _ _ s (addAll_mem _ _ s h hne)))
+        · exact addAll_mono _ _ s (addAll_mono _ _ s (addAll_mem _ _ s h hne))
+        · exact addAll_mono _ _ s (addAll_mem _ _ s h hne)
+        · exact addAll_mem _ _ s h hne
+      · exact ih hr' _
+
 /-! ### Net rate equations -/
 
 variable {α : Type} [Field α] [LinearOrder α] [IsStrictOrderedRing α] [Transc α]
